@@ -166,6 +166,9 @@ fn call_consist(o: &mut Consist, fname: &str, a: &[Value]) -> CallRes {
         "<Consist as LocoTrait>::save_state" => { LocoTrait::save_state(o); Ok(Ok(Value::Null)) }
         "<Consist as LocoTrait>::step" => { LocoTrait::step(o); Ok(Ok(Value::Null)) }
         "Consist::set_save_interval" => { o.set_save_interval(a[0].as_u64().map(|x| x as usize)); Ok(Ok(Value::Null)) }
+        "<Consist as LocoTrait>::set_cur_pwr_max_out" => unit(o.set_cur_pwr_max_out(of(&a[0]).map(|x| x * uc::W), f(&a[1]) * uc::S)),
+        "Consist::get_energy_fuel" => Ok(Ok(json!(o.get_energy_fuel().get::<si::joule>()))),
+        "Consist::get_net_energy_res" => Ok(Ok(json!(o.get_net_energy_res().get::<si::joule>()))),
         "<Consist as Mass>::mass" => Ok(o.mass().map(|m| json!(m.map(|x| x.get::<si::kilogram>())))),
         "Consist::force_max" => Ok(o.force_max().map(|x| json!(x.get::<si::newton>()))),
         "Consist::set_pwr_aux" => unit(o.set_pwr_aux(ob(&a[0]))),
@@ -236,6 +239,7 @@ pub fn dispatch(line: &str) -> String {
         "W_UpdateRes" => <StrapTag as FileEntry>::call(&req),
         "SetSpeedTrainSim" => <SetSpeedTrainSimTag as FileEntry>::call(&req),
         "TrainState" => <TrainStateTag as FileEntry>::call(&req),
+        "SpeedLimitTrainSim" => <SpeedLimitTrainSimTag as FileEntry>::call(&req),
         "<free>" => run_free(&req),
         "Vec<SpeedLimitPoint>" => <SpeedPointTag as FileEntry>::call(&req),
         "PowerDistributionControlType" => run::<PowerDistributionControlType>(&req, call_pdct),
